@@ -124,6 +124,31 @@ func checkC16(c OrgCase) Verdict {
 				return *f
 			}
 			nabs++
+		case it.RefAs == "mem":
+			// the address is a disp16 somewhere inside the instruction (an immediate may follow it): located by decoding
+			o := offs[it.Ser] + 6
+			ia, err1 := x86asm.Decode(a[o:], 16)
+			ib, err2 := x86asm.Decode(b[o:], 16)
+			if err1 != nil || err2 != nil || ia.Len != ib.Len || ia.Op != ib.Op {
+				return fail("decode", "%q decodes differently at the two origins (%v / %v)", it.Text, err1, err2)
+			}
+			w := ia.AddrSize / 8
+			// an immediate follows the address in "OP BYTE [label],imm" (one byte) and "OP WORD [label],imm16" (two)
+			immLen := 0
+			for _, ar := range ia.Args {
+				if _, ok := ar.(x86asm.Imm); ok {
+					switch {
+					case strings.Contains(it.Text, "BYTE"):
+						immLen = 1
+					case strings.Contains(it.Text, "WORD"):
+						immLen = 2
+					}
+				}
+			}
+			if f := field(o+ia.Len-immLen-w, w, "insn "+it.Text); f != nil {
+				return *f
+			}
+			nabs++
 		case strings.HasPrefix(it.RefAs, "mov"), it.RefAs == "lgdt":
 			o := offs[it.Ser] + 6
 			ia, err1 := x86asm.Decode(a[o:], 16)
